@@ -26,7 +26,7 @@ ASSUMPTIONS = ASSUMPTIONS_TRANSPORT + [
     "both endpoints advertise active_connection_id_limit 8 (aioquic's constant), read from the configuration",
 ]
 COMPONENTS = COMPONENTS_TRANSPORT
-PLAN = plan(60, 900, ["honest", "honest", "forged", "forged"])
+PLAN = plan(60, 900, ["honest", "honest", "forged", "forged", "resumed"])
 
 OPS = {"write": 6, "fin": 2, "reset": 0.5, "stop": 0.5, "ping": 1.0, "key_update": 0.5, "change_cid": 7.0}
 PROFILES = {
@@ -39,9 +39,10 @@ LIMIT = 8
 
 
 class HonestOracle(Oracle):
-    def __init__(self):
+    def __init__(self, limits=None):
         self.st = {}
         self.n_switch = 0
+        self.limits = limits or {}  # endpoint name -> active_connection_id_limit its PEER advertises (default LIMIT)
 
     def on_start(self, sim):
         self.sim = sim
@@ -75,11 +76,12 @@ class HonestOracle(Oracle):
                 if f.type == wf.NEW_CONNECTION_ID:
                     s["issued"][f["seq"]] = bytes(f["cid"])
                     active = len(s["issued"]) + 1 - len(s["retire_delivered_to_me"])
-                    if active > LIMIT:
+                    limit = self.limits.get(ep.name, LIMIT)
+                    if active > limit:
                         raise Violation("c18.issued-too-many", "active-cids-beyond-peer-limit",
                                         "%s has issued %d connection IDs of which the peer retired %d: %d active, the "
                                         "peer allows %d" % (ep.name, len(s["issued"]) + 1,
-                                                            len(s["retire_delivered_to_me"]), active, LIMIT))
+                                                            len(s["retire_delivered_to_me"]), active, limit))
                 elif f.type == wf.RETIRE_CONNECTION_ID:
                     s["retire_sent"].setdefault(f["seq"], self.sim.k.now)
 
@@ -122,7 +124,7 @@ class HonestOracle(Oracle):
                                     "was ever delivered to the peer although the network has been fair since t=%.2f "
                                     "(run ended %s at t=%.2f)" % (ep.name, seq, s["retire_sent"][seq],
                                                                  sim.cfg["t_fair"], reason, sim.k.now))
-            need = 7 + len(s["retire_delivered_to_me"])
+            need = self.limits.get(ep.name, LIMIT) - 1 + len(s["retire_delivered_to_me"])
             if ep.handshake_complete and len(s["issued"]) < need:
                 raise Violation("c18.not-replaced", "retired-cid-not-replaced",
                                 "%s issued %d new connection IDs in total, the peer retired %d of its IDs: %d expected "
@@ -434,6 +436,27 @@ class ForgedOracle(Oracle):
 def run_one(seed, tier="quick", variant=None, replay=None):
     variant = variant or "honest"
     holder = {}
+
+    if variant == "resumed":
+        # the restart fault: the second connection resumes with 0-RTT against a server that now advertises a
+        # smaller active_connection_id_limit than the one remembered with the ticket (set on the server's side
+        # right after construction: what its transport parameters carry)
+        from sim.harness import run_resumed
+
+        small = (2, 3, 4)[seed % 3]
+
+        def post_create(sim, ep):
+            if not ep.is_client:
+                ep.conn._local_active_connection_id_limit = small
+
+        def make2(mon):
+            holder["h"] = HonestOracle(limits={"client": small})
+            return [holder["h"], DeliveryGoal()]
+
+        prof2 = dict(PROFILES["honest"], post_create=post_create, t_adv_max=3.0)
+        out = run_resumed(seed, replay, prof2, make2, variant, early_writes=[(300, False)])
+        out.nontrivial = True
+        return out
 
     def make(mon):
         if variant == "honest":
